@@ -359,6 +359,19 @@ class Model:
             self.a[tgt].shape = shape
             self.tag[tgt].shape = shape
 
+    def _badshape(self, tgt, shape):
+        """a shape assignment NumPy rejects (wrong size, or not expressible over the existing strides): nothing changes"""
+        import warnings
+
+        v = self.a[tgt].view()
+        try:
+            with warnings.catch_warnings():
+                warnings.simplefilter("ignore")
+                v.shape = shape
+        except (AttributeError, ValueError):
+            return
+        raise AssertionError("harness: NumPy accepts .shape = %r here" % (shape,))
+
     # graph-clearing statements: for the NumPy model they only matter to the complex-step runs,
     # where tensors whose creator was cleared become leaves for *later* statements (detach).
     # `self.detach` = {time: [slot names]} is observed on the implementation (walk of the real graph).
@@ -499,6 +512,14 @@ class Impl:
     def _setshape(self, tgt, shape):
         self.t[tgt].shape = shape
 
+    def _badshape(self, tgt, shape):
+        try:
+            self.t[tgt].shape = shape
+        except Exception as e:
+            del e
+            return
+        raise RuntimeError("NumPy rejects `.shape = %r` on this array, MyGrad accepted it (shape is now %r)" % (tuple(shape), self.t[tgt].shape))
+
     def _del(self, name):
         self.order.remove(name)
         del self.t[name]
@@ -578,6 +599,8 @@ def render(st):
             st[2], render_val(st[3]), render_val(st[4]), st[1], st[1], st[5])
     if k == "setshape":
         return "%s.shape = %r" % (st[1], tuple(st[2]))
+    if k == "badshape":
+        return "try: %s.shape = %r  # NumPy rejects this\nexcept Exception: pass" % (st[1], tuple(st[2]))
     if k == "del":
         return "del %s" % st[1]
     if k == "backward":
@@ -651,7 +674,7 @@ def uses(st):
     elif k == "out":
         u.append(st[1])
         u += [v[1] for v in (st[3], st[4]) if v[0] == "t"]
-    elif k in ("setshape", "del", "backward", "clear", "null_grad", "reuse", "fail", "peek", "rawwrite", "outc"):
+    elif k in ("setshape", "badshape", "del", "backward", "clear", "null_grad", "reuse", "fail", "peek", "rawwrite", "outc"):
         u.append(st[1])
     return u
 
